@@ -891,8 +891,69 @@ class Interp(object):
       out = np.moveaxis(out, -1, ax)
     return [out]
 
+  def op_TensorScatterAdd(self, op, v):
+    t, idx, upd = v
+    ii = np.asarray(idx, dtype=object)
+    if any(is_sym(q) for q in ii.reshape(-1)):
+      raise HarnessError('TensorScatterAdd with symbolic indices')
+    out = np.array(t, dtype=object, copy=True)
+    depth = ii.shape[-1]
+    for pos in np.ndindex(*ii.shape[:-1]):
+      key = tuple(int(q) for q in ii[pos])
+      if depth == out.ndim:
+        out[key] = sym.s_add(out[key], upd[pos])
+      else:
+        out[key] = sym.add(out[key], upd[pos])
+    return [out]
+
+  def op_TensorScatterUpdate(self, op, v):
+    t, idx, upd = v
+    ii = np.asarray(idx, dtype=object)
+    out = np.array(t, dtype=object, copy=True)
+    for pos in np.ndindex(*ii.shape[:-1]):
+      out[tuple(int(q) for q in ii[pos])] = upd[pos]
+    return [out]
+
+  def op_UnsortedSegmentSum(self, op, v):
+    data, ids, num = v
+    num = _int(num)
+    ids = np.asarray(ids, dtype=object)
+    if any(is_sym(t) for t in ids.reshape(-1)):
+      raise HarnessError('UnsortedSegmentSum with symbolic ids')
+    inner = data.shape[ids.ndim:]
+    out = sym.full((num,) + tuple(inner), 0)
+    for pos in np.ndindex(*ids.shape):
+      k = int(ids[pos])
+      if 0 <= k < num:
+        out[k] = sym.add(out[k], data[pos]) if inner else sym.s_add(out[k], data[pos])
+    return [out]
+
+  def op_SegmentSum(self, op, v):
+    data, ids = v
+    ids = [int(t) for t in np.asarray(ids, dtype=object).reshape(-1)]
+    num = (max(ids) + 1) if ids else 0
+    inner = data.shape[1:]
+    out = sym.full((num,) + tuple(inner), 0)
+    for i, k in enumerate(ids):
+      out[k] = sym.add(out[k], data[i]) if inner else sym.s_add(out[k], data[i])
+    return [out]
+
+  def op_SegmentMean(self, op, v):
+    data, ids = v
+    (tot,) = self.op_SegmentSum(op, v)
+    idl = [int(t) for t in np.asarray(ids, dtype=object).reshape(-1)]
+    for k in range(tot.shape[0]):
+      cnt = idl.count(k)
+      if cnt:
+        tot[k] = sym.mul(tot[k], sym.full((), Fraction(1, cnt))) if tot.ndim > 1 else sym.s_mul(tot[k], Fraction(1, cnt))
+    return [tot]
+
   def op_Where(self, op, v):
-    raise HarnessError('tf.where(cond) (index form) unsupported')
+    c = np.asarray(v[0], dtype=object)
+    if any(is_sym(t) for t in c.reshape(-1)):
+      raise HarnessError('tf.where(cond) (index form) on a symbolic condition')
+    idx = np.argwhere(c.astype(bool))
+    return [sym.obj(idx.astype(np.int64)) if idx.size else np.empty((0, c.ndim), dtype=object)]
 
   def op_ArgMax(self, op, v):
     raise HarnessError('ArgMax unsupported')
@@ -983,6 +1044,12 @@ class Interp(object):
         for i in range(len(row)):
           for j in range(i + 1, len(row)):
             c.assume(sym.b(sym.s_cmp('le', row[i], row[j])) == (vs[i] <= vs[j]))
+            c.assume(sym.b(sym.s_cmp('le', row[j], row[i])) == (vs[j] <= vs[i]))
+        # functional consistency with earlier softmax calls of the same width: equal logits -> equal outputs
+        for (row2, vs2) in c.softmax.values():
+          if len(row2) == len(row):
+            same = z3.And([sym.b(sym.s_cmp('eq', a_, b_)) for a_, b_ in zip(row, row2)])
+            c.assume(z3.Implies(same, z3.And([p_ == q_ for p_, q_ in zip(vs, vs2)])))
         c.softmax[key] = (row, vs)
         if 'Softmax' not in c.stubs:
           c.stubs.append('Softmax')
@@ -1001,6 +1068,7 @@ class Interp(object):
         return Fraction(concrete(float(a)))
       if isinstance(a, Frac):
         raise HarnessError('%s of Frac' % name)
+      a = z3.simplify(a, som=True)  # canonical argument: syntactically different but equal polynomials share the stub
       key = (name, a.get_id())
       if key in c.memo:
         return c.memo[key][1]
@@ -1017,7 +1085,7 @@ class Interp(object):
       c.assume(r > 0, r < 1)
       c.assume((a >= 0) == (r >= Fraction(1, 2)))
       for (a2, r2) in c.sig_args:
-        c.assume((a <= a2) == (r <= r2))
+        c.assume((a <= a2) == (r <= r2), (a2 <= a) == (r2 <= r))
       c.sig_args.append((a, r))
     return [self._unary_stub('Sigmoid', v[0], lambda t: 1 / (1 + math.exp(-t)), contract)]
 
@@ -1026,7 +1094,7 @@ class Interp(object):
       c.assume(r > 0)
       c.assume((a >= 0) == (r >= 1))
       for (a2, r2) in c.exp_args:
-        c.assume((a <= a2) == (r <= r2))
+        c.assume((a <= a2) == (r <= r2), (a2 <= a) == (r2 <= r))
       c.exp_args.append((a, r))
     return [self._unary_stub('Exp', v[0], math.exp, contract)]
 
@@ -1035,7 +1103,7 @@ class Interp(object):
       c.cmp_obligations.append(('log_domain', a))
       c.assume((a >= 1) == (r >= 0))
       for (a2, r2) in c.log_args:
-        c.assume((a <= a2) == (r <= r2))
+        c.assume((a <= a2) == (r <= r2), (a2 <= a) == (r2 <= r))
       c.log_args.append((a, r))
     return [self._unary_stub('Log', v[0], math.log, contract)]
 
@@ -1123,3 +1191,9 @@ def trace(fn, *specs):
 
 def spec(shape, dtype=tf.float32):
   return tf.TensorSpec(list(shape), dtype)
+
+
+def keras_of():
+  """the Keras implementation tensorflow_lattice itself uses"""
+  from tensorflow_lattice.python import lattice_layer
+  return lattice_layer.keras
